@@ -34,6 +34,13 @@ ASSERTS = [
     ("assert_nonzero", "{i}.assert_nonzero()"),
     ("assert_positive", "{i}.assert_positive()"), ("assert_positive_w", "{i}.assert_positive({w})"),
     ("to_bits", "{i}.to_bits()"), ("to_bits_w", "{i}.to_bits({w})"),
+    # the same assertions with the caller's own message (positional and by keyword): only the text of the refusal may change
+    ("assert_positive_w_msg", "{i}.assert_positive({w}, 'value too wide')"), ("assert_positive_w_errkw", "{i}.assert_positive({w}, err='value too wide')"),
+    ("assert_positive_msg", "{i}.assert_positive(err='negative')"), ("assert_positive_bitskw", "{i}.assert_positive(bits={w})"),
+    ("assert_lt_msg", "{i}.assert_lt({i}, 'not below')"), ("assert_le_msg", "{i}.assert_le({K}, err='above')"), ("assert_gt_msg", "{i}.assert_gt({i}, 'not above')"),
+    ("assert_ge_msg", "{i}.assert_ge({K}, 'below')"), ("assert_eq_msg", "{i}.assert_eq({i}, 'differs')"), ("assert_ne_msg", "{i}.assert_ne({K}, err='equal')"),
+    ("assert_zero_msg", "({i} - {i}).assert_zero('not zero')"), ("assert_nonzero_msg", "{i}.assert_nonzero(err='zero')"),
+    ("assert_range_msg", "{i}.assert_range({K}, {K}, 'outside')"), ("bassert_eq_msg", "{b}.assert_eq({b}, 'bits differ')"), ("fassert_lt_msg", "{f}.assert_lt({f}, err='not below')"),
     ("assert_range_cc", "{i}.assert_range({K}, {K})"), ("assert_range_ss", "{i}.assert_range({i}, {i})"),
     ("lincombbool", "LinCombBool({i})"), ("lincombbool_sum", "LinCombBool({b} + {b})"),
     ("bool_and_int", "{b} & {i}"), ("bool_eq_int", "{b} == {i}"), ("bool_xor_int", "{b} ^ {i}"), ("bool_or_int", "{b} | {i}"),
@@ -137,7 +144,7 @@ def make_case(tid, tmpl, bl, rnd):
             cs.append(repr(r / (1 << res)))
         elif s == "B":
             cs.append(rnd.choice(["0", "1", "True", "False"]))
-    if tid == "assert_range_cc" and isinstance(cs[0], int) and cs[0] > cs[1]:
+    if tid in ("assert_range_cc", "assert_range_msg") and isinstance(cs[0], int) and cs[0] > cs[1]:
         cs[0], cs[1] = cs[1], cs[0]
     if tid == "unpack_list_mixed":
         cs = [cs[0], cs[0]]
@@ -230,6 +237,8 @@ def worker(job):
 
 
 def judge(R, c, p, N, capture, solve, model, G, extra_api):
+    N.settings_drift()
+    d0 = len(N.drift)
     # (1) the relation, from the reference model
     prog = G.Prog(c.pre_src + c.op_src, [], c.bl, c.res)
     ref = G.run_ref(prog, c.inputs, extra=ref_extra())
@@ -250,10 +259,22 @@ def judge(R, c, p, N, capture, solve, model, G, extra_api):
     if cap.exc is not None:
         # the library refuses outright even in ignore-errors mode: nothing reaches the circuit
         R.count("refused_in_ignore_mode:" + type(cap.exc).__name__)
+        N.settings_drift()
+        if len(N.drift) > d0:
+            exp, now = N.drift[d0]
+            R.violation("global-width-changed-by-operation:" + c.tid, "%s on %s (refused) left the global (bitlength, resolution) at %s, it was %s" % (c.expr, c.inputs, now, exp),
+                        case=c.describe(), pre_src=c.pre_src, op_src=c.op_src, p=p)
         if relation and accepted:
             R.violation("accepts-checked-refuses-unchecked:" + c.tid, "%s accepted with checks on but raises %r with checks off" % (c.expr, cap.exc),
                         case=c.describe(), p=p)
         return
+    N.settings_drift()
+    if len(N.drift) > d0:
+        exp, now = N.drift[d0]
+        R.case(cell="%s|bl%d|settings" % (c.tid, c.bl), key=c.key() + (p, "drift"))
+        R.violation("global-width-changed-by-operation:" + c.tid, "%s on %s left the global (bitlength, resolution) at %s, it was %s: later default-width assertions enforce another width than the one set" % (
+            c.expr, c.inputs, now, exp), case=c.describe(), pre_src=c.pre_src, op_src=c.op_src, p=p)
+    R.count("global_widths_checked_after_operation")
     res = solve.solve(cap.cons, cap.fixed, p, [], maxleaves=60000)
     sat = bool(res.values) or bool(res.free)
     if not sat and (res.inconclusive or res.budget_exceeded):
